@@ -1,9 +1,10 @@
 #!/usr/bin/env python3
-"""Runs the registered checks against every seeded change under /verif/seeded (apply to /repo, check, undo)
+"""Runs the registered checks against every seeded change under /verif/seeded (apply to /repo - or to the checkout named by SEED_REPO -, check, undo)
 and records in each meta.json what was run and what was reported (key "builder")."""
 import json, os, subprocess, glob, sys
 EXTRA = {"C08": ["C20", "C03"], "C09": ["C10"], "C12": ["C04"], "C15": ["C01"], "C07": ["C17", "C02"], "C02": ["C07", "C17"],
          "C03": ["C08"], "C11": ["C03"], "C20": ["C08"], "C17": ["C07"], "C01": ["C17"]}
+R = os.environ.get('SEED_REPO', '/repo')  # a private checkout of /repo's HEAD may be given instead
 def sh(cmd, **kw):
     return subprocess.run(cmd, shell=True, capture_output=True, text=True, **kw)
 bad = 0
@@ -12,17 +13,17 @@ for d in sorted(glob.glob('/verif/seeded/*/')):
     meta = json.load(open(meta_p))
     prop = meta.get('property') or os.path.basename(d.rstrip('/')).split('-')[0]
     patch = os.path.join(d, 'patch.diff')
-    r = sh(f'git -C /repo apply {patch}')
+    r = sh(f'git -C {R} apply {patch}')
     if r.returncode != 0:
         print('cannot apply', d, r.stderr); bad += 1; continue
     try:
         res = {}
         for p in [prop] + EXTRA.get(prop, []):
-            r = sh(f'VERIF_NOEVIDENCE=1 /verif/bin/govc check -prop {p}', cwd='/verif')
+            r = sh(f'VERIF_NOEVIDENCE=1 {os.environ.get('SEED_GOVC', '/verif/bin/govc')} check -repo {R} -prop {p}', cwd='/verif')
             lines = [l for l in r.stdout.splitlines() if l.startswith(('VIOLATION', 'UNDECIDED', 'OK '))]
             res[p] = {"exit": r.returncode, "lines": [l.replace('/verif/replays/', 'replays/') for l in lines[:4]]}
     finally:
-        sh(f'git -C /repo apply -R {patch}')
+        sh(f'git -C {R} apply -R {patch}')
     caught = res[prop]["exit"] == 1
     meta["builder"] = {
         "confirmed": "in the sub-agent's scratch worktree: package suite passes with the change, demo fails with the change and passes without it (tools/seed.sh)",
@@ -32,6 +33,6 @@ for d in sorted(glob.glob('/verif/seeded/*/')):
     json.dump(meta, open(meta_p, 'w'), indent=1)
     print(os.path.basename(d.rstrip('/')), 'caught' if caught else 'MISSED', {k: v["exit"] for k, v in res.items()})
     bad += 0 if caught else 1
-st = sh('git -C /repo status --short').stdout.strip()
+st = sh(f'git -C {R} status --short').stdout.strip()
 print('repo status:', st or 'clean')
 sys.exit(1 if bad else 0)
